@@ -83,6 +83,9 @@ type control struct {
 	args   slip.List
 	argPos int
 	stop   bool
+	// outer is the control of the enclosing directive when this control
+	// processes the body of a ~( ~[ ~{ or ~? directive into its own buffer.
+	outer *control
 }
 
 type floatFormatter struct {
@@ -103,6 +106,29 @@ type floatFormatter struct {
 func (c *control) Write(p []byte) (n int, err error) {
 	c.out = append(c.out, p...)
 	return len(p), nil
+}
+
+// atLineStart returns true if the last byte output so far, including the
+// output of the enclosing controls, is a newline.
+func (c *control) atLineStart() bool {
+	for ; c != nil; c = c.outer {
+		if 0 < len(c.out) {
+			return c.out[len(c.out)-1] == '\n'
+		}
+	}
+	return false
+}
+
+// column returns the number of bytes output since the last line break,
+// including the output of the enclosing controls.
+func (c *control) column() (col int) {
+	for ; c != nil; c = c.outer {
+		if i := bytes.LastIndexAny(c.out, "\n\r\f"); 0 <= i {
+			return col + len(c.out) - i - 1
+		}
+		col += len(c.out)
+	}
+	return
 }
 
 func (c *control) process() {
@@ -409,7 +435,7 @@ func (c *control) dirAmp(colon, at bool, params []any) {
 			c.invalidDirParam(c.str, c.pos)
 		}
 	}
-	if 0 < len(c.out) && c.out[len(c.out)-1] == '\n' {
+	if c.atLineStart() {
 		n--
 	}
 	for ; 0 < n; n-- {
@@ -471,6 +497,7 @@ func (c *control) dirCase(colon, at bool, params []any) {
 	c2 := *c
 	c2.out = make([]byte, 0, pos-c.pos)
 	c2.end = pos
+	c2.outer = c
 	c2.process()
 
 	c.pos = pos + 2 // past ~)
@@ -750,6 +777,7 @@ func (c *control) dirProc(colon, at bool, params []any) {
 		scope: c.scope,
 		str:   ctrl,
 		end:   len(ctrl),
+		outer: c,
 	}
 	if at {
 		c2.args = c.args
@@ -1399,7 +1427,6 @@ func (c *control) dirT(colon, at bool, params []any) {
 	var (
 		target int // target offset from 'from'
 		from   int // from the start of the line
-		start  int // start of line
 	)
 	if at {
 		for len(spaces) < colnum {
@@ -1407,26 +1434,14 @@ func (c *control) dirT(colon, at bool, params []any) {
 			colnum -= len(spaces)
 		}
 		c.out = append(c.out, spaces[:colnum]...)
-		start = bytes.LastIndexAny(c.out, "\n\r\f")
-		if start < 0 {
-			from = len(c.out)
-		} else {
-			start++
-			from = len(c.out) - start
-		}
+		from = c.column()
 		if colinc == 0 || from == from/colinc*colinc {
 			target = from
 		} else {
 			target = from/colinc*colinc + colinc
 		}
 	} else {
-		start = bytes.LastIndexAny(c.out, "\n\r\f")
-		if start < 0 {
-			from = len(c.out)
-		} else {
-			start++
-			from = len(c.out) - start
-		}
+		from = c.column()
 		target = colnum * colinc
 		if target < from {
 			if colinc == 0 {
@@ -1620,6 +1635,7 @@ func (c *control) subProcess(str string) {
 		end:    len(str),
 		args:   c.args,
 		argPos: c.argPos,
+		outer:  c,
 	}
 	c2.process()
 	c.out = append(c.out, c2.out...)
@@ -1632,6 +1648,7 @@ func (c *control) dirIter(colon, at bool, params []any) {
 	c2 := *c
 	c2.out = make([]byte, 0, pos-start)
 	c2.end = pos
+	c2.outer = c
 	var atLeastOnce bool
 	c.pos = pos + 2
 	// If terminated by ~:}...
